@@ -22,7 +22,8 @@ fn canon(v: &Value) -> String {
 const COLLIDING: [&str; 3] = ["origin_vertex", "tag", "extra2"];
 
 /// element kinds of one grid field: 0 scalar, 1 object with one key, 2 object with two keys, 3 mixed, 4 object whose key
-/// is also a field of the original query (the option must replace it, otherwise two combinations yield the same query)
+/// is also a field of the original query (the option must replace it, otherwise two combinations yield the same query),
+/// 5 repeated options, 6 object-valued member over an object-valued field
 fn field_values(field: usize, size: usize, kind: usize) -> Vec<Value> {
     (0..size)
         .map(|i| {
@@ -32,6 +33,9 @@ fn field_values(field: usize, size: usize, kind: usize) -> Vec<Value> {
                 // that yield equal queries are still two of the n1 x ... x nm
                 5 => json!(format!("r{}_{}", field, if i + 1 == size && size > 2 { 0 } else { i / 2 })),
                 4 => json!({COLLIDING[field % 3]: format!("c{}_{}", field, i), format!("m{}", field): i}),
+                // an object-valued member written over a field that already holds an object with other keys (the original
+                // query's `tag`, or the `tag` written by an earlier grid field): the option's value replaces it whole
+                6 => json!({"tag": {format!("s{}_{}", field, i): i, "deep": {format!("d{}", field): [i]}}, format!("m{}", field): i}),
                 0 => {
                     if (field + i) % 2 == 0 {
                         json!(10 * field + i)
@@ -328,7 +332,7 @@ fn check_fan_out(st: &mut Stats) -> u64 {
     lists.len() as u64
 }
 
-const KINDS: usize = 6;
+const KINDS: usize = 7;
 const NAMES: [&str; 3] = ["alpha", "beta", "gamma"];
 
 fn sizes(tier: Tier) -> Vec<usize> {
